@@ -54,6 +54,7 @@ def tasks(tier):
     for k, n, a, b, cplx in [("rhf", 3, 1, 1, False), ("rhf", 3, 1, 1, True), ("uhf", 3, 2, 1, False), ("uhf", 3, 2, 1, True), ("uhf", 2, 1, 0, False),
                              ("ghf", 2, 1, 1, False), ("ghf", 2, 1, 1, True), ("ghf", 3, 2, 1, False), ("noci", 2, 1, 1, False)]:
         t.append((W, "rdm_true", dict(kind=k, norb=n, nu=a, nd=b, complex_orbitals=cplx)))
+    t += [("contracts.allsizes", "rdm_allsizes", dict(kind="rhf")), ("contracts.allsizes", "rdm_allsizes", dict(kind="uhf"))]      # C C^dagger for ALL sizes
     for w in ("overlap", "conj"):
         t.append((W, "canary", dict(which=w)))
     return t
